@@ -4,10 +4,10 @@
    expansion, column dictionary).  Spec: Model/K03_CoocSpec.v (pointwise indicator sums).  The matrix is
    `sumby events` (the accumulator's interface).  K is any carrier whose (add, zero) is a commutative monoid;
    the order/field statements are over the rationals Qc. *)
-From Coq Require Import List Arith Bool Lia QArith Qcanon.
+From Coq Require Import Reals List Arith Bool Lia QArith Qcanon.
 From VZ Require Import Model.K02_Windows Model.K03_Cooc Model.K03_CoocSpec Model.K03_Exec
      Proofs.K03_BigSum Proofs.K02_Windows_proofs Proofs.K02_Qc_proofs Proofs.K03_Cooc_proofs
-     Proofs.K03_Drivers_proofs Proofs.K03_Blocks_proofs Proofs.K03_Multi_proofs Proofs.K03_Qc_proofs.
+     Proofs.K03_Drivers_proofs Proofs.K03_Blocks_proofs Proofs.K03_Multi_proofs Proofs.K03_Qc_proofs Proofs.K02_Time_proofs.
 Import ListNotations.
 Open Scope nat_scope.
 
@@ -163,6 +163,15 @@ Proof.
   intros a b. unfold zabsdiff. f_equal. lia.
 Qed.
 Print Assumptions C03_timed_shift_Z.
+
+(* time axis (Flocq, binary64 = FLT(-1074, 53), round to nearest even): the difference of two stored timestamps within a
+   factor 2 of each other (any two unix-scale timestamps) is computed exactly, so with float64 storage the timed
+   weights are functions of the exact differences whatever the magnitude.  (The float32 storage of the unrepaired
+   code is refuted by the corpus case D11 of the check, not in Coq.) *)
+Theorem C03_time_exact : forall t1 t2 : R, b64 t1 -> b64 t2 -> (t2 / 2 <= t1 <= 2 * t2)%R ->
+  rnd64 (t1 - t2)%R = (t1 - t2)%R /\ rnd64 (Rabs (t1 - t2)) = Rabs (t1 - t2).
+Proof. intros; split; [apply time_difference_exact | apply time_absdiff_exact]; assumption. Qed.
+Print Assumptions C03_time_exact.
 
 (* ---------------- K3: the multiset driver ---------------- *)
 Theorem C03_multiset : forall (K : carrier), carrier_laws K ->
